@@ -169,3 +169,86 @@ def run_files(c, tier):
         if not bad:
             c.sample({"part": "reference files", "atoms_listed": case["ids"], "listing": case["listing"],
                       "rmsd": steps[-1]["cv"]["r_all"]["x"][0]}, cap=3)
+
+
+# ---------------------------------------------------------------------------------------------------------------
+# run-time reconfiguration of a variable's components (cv colvar <name> modifycvcs / cvcflags): the value is the
+# documented combination sum_i c_i q_i^{n_i} over the active components, with the coefficients and exponents in force
+# ---------------------------------------------------------------------------------------------------------------
+
+def gen_runtime_case(rng, idx):
+    import json as _json
+    N = 16
+    ncomp = rng.choice([2, 3])
+    atoms = rng.sample(range(1, N + 1), 2 * ncomp)
+    pairs = [(atoms[2 * k], atoms[2 * k + 1]) for k in range(ncomp)]
+
+    def comp(k, extra=""):
+        return ("  distance {\n    name q%d\n%s    group1 { atomNumbers %d }\n    group2 { atomNumbers %d }\n  }\n" % (k, extra, pairs[k][0], pairs[k][1]))
+    c0 = [rng.choice([1.0, 1.0, -2.0, 0.5]) for _ in range(ncomp)]
+    n0 = [1] * ncomp if rng.random() < 0.7 else [rng.choice([1, 2]) for _ in range(ncomp)]
+    cfg = "colvar {\n  name s\n"
+    for k in range(ncomp):
+        ex = ""
+        if c0[k] != 1.0:
+            ex += "    componentCoeff %s\n" % fnum(c0[k])
+        if n0[k] != 1:
+            ex += "    componentExp %d\n" % n0[k]
+        cfg += comp(k, ex)
+    cfg += "}\n"
+    for k in range(ncomp):
+        cfg += "colvar {\n  name p%d\n%s}\n" % (k, comp(k))
+    scn = "natoms %d\ntfmode off\nemit atoms off\nmodule\nconfig <<EOC\n%sEOC\ninit\n" % (N, cfg)
+    pos = [[rng.uniform(-4, 4) for _ in range(3)] for _ in range(N)]
+    stages = []           # (coefficients, exponents, flags) in force at each step
+    cs, ns, fl_ = list(c0), list(n0), [1] * ncomp
+    for st in range(6):
+        if st > 0:
+            op = rng.choice(["exp", "coeff", "flags", "both"])
+            if op in ("exp", "both"):
+                ns = [rng.choice([1, 2, 3]) for _ in range(ncomp)]
+            if op in ("coeff", "both"):
+                cs = [rng.choice([1.0, -1.5, 0.25, 2.0]) for _ in range(ncomp)]
+            if op in ("exp", "coeff", "both"):
+                args = ["\"componentCoeff %s\ncomponentExp %d\"" % (fnum(cs[k]), ns[k]) for k in range(ncomp)]   # one keyword per line
+                scn += "script %s\n" % _json.dumps(["cv", "colvar", "s", "modifycvcs", " ".join(args)])
+            if op == "flags":
+                while True:
+                    fl_ = [rng.choice([0, 1]) for _ in range(ncomp)]
+                    if sum(fl_) > 0:
+                        break
+                scn += "script %s\n" % _json.dumps(["cv", "colvar", "s", "cvcflags", " ".join(str(f) for f in fl_)])
+        pos = [[x + rng.uniform(-0.4, 0.4) for x in p] for p in pos]
+        scn += "pos " + " ".join(fnum(x) for p in pos for x in p) + "\nstep\n"
+        stages.append((list(cs), list(ns), list(fl_)))
+    return {"idx": idx, "scn": scn, "stages": stages, "ncomp": ncomp}
+
+
+def run_runtime(c, tier):
+    n = 40 if tier == "quick" else 400
+    rng = c.rng.__class__(c.seed * 6007 + 11)
+    cases = [gen_runtime_case(rng, i) for i in range(n)]
+
+    def runner(case):
+        wd = os.path.join(c.work, "rt%d" % case["idx"])
+        os.makedirs(wd, exist_ok=True)
+        return common.run_esim("plain", case["scn"], wd, "c02_rt", timeout=120)
+
+    for case, (r, ev, sp) in zip(cases, common.pmap(runner, cases)):
+        steps = [e for e in ev if e.get("ev") == "step"]
+        scr = [e for e in ev if e.get("ev") == "script"]
+        if not r["complete"] or len(steps) != len(case["stages"]) or any(e.get("rc") for e in scr):
+            c.inconc("run-time reconfiguration case did not run: %s" % (str([e.get("res") for e in scr if e.get("rc")])[:200] or r["err"][-200:]))
+            continue
+        for e, (cs, ns, fl_) in zip(steps, case["stages"]):
+            q = [float(e["cv"]["p%d" % k]["x"][0]) for k in range(case["ncomp"])]
+            exp = sum(cs[k] * q[k] ** ns[k] for k in range(case["ncomp"]) if fl_[k])
+            obs = float(e["cv"]["s"]["x"][0])
+            c.count()
+            scale = max(1.0, sum(abs(cs[k] * q[k] ** ns[k]) for k in range(case["ncomp"])))
+            if abs(obs - exp) > 1e-12 * scale:
+                c.violation("runtime_reconfiguration:value", "step %s: value %.15g; sum over the active components of c_i q_i^n_i = %.15g "
+                            "(coefficients %s, exponents %s, flags %s, component values %s)" % (e.get("it"), obs, exp, cs, ns, fl_, q), [sp])
+                break
+            c.bump("runtime_reconfiguration_comparisons")
+            c.nontrivial("runtime|exp%s|flags%s" % ("".join(str(x) for x in ns), "".join(str(x) for x in fl_)))
